@@ -20,9 +20,12 @@ def _read_line(buf: bytes, pos: int) -> tuple[bytes, int]:
         nl = buf.find(b'\n', pos)
         if nl < 0:
             raise Incomplete()
-        out += buf[pos:nl + 1]
+        seg = buf[pos:nl + 1]
+        out += seg
         pos = nl + 1
-        m = _LITPLUS.search(out) if out.endswith((b'+}\n', b'+}\r\n')) \
+        # only what was read as a *line* can announce a literal - not the
+        # tail of the previous literal's data
+        m = _LITPLUS.search(seg) if seg.endswith((b'+}\n', b'+}\r\n')) \
             else None
         if m:
             n = int(m.group(1))
